@@ -1092,5 +1092,20 @@ pub fn run(cfg: &RunCfg, which: Which) -> Report {
         }
         for d in sub.disagreements.into_iter() { rep.disagreements.push(d); }
     }
+    // ... and the reward clause ("the reward actor never pays out more than it holds"): theorems
+    // BA.Reward.reward_pays_le_balance / reward_balance_nonneg over BA.Reward.award; this sub-campaign
+    // runs AwardBlockReward on the real actor with its balance placed at the boundaries of the cap,
+    // refusing miners and failing burns, against the Lean model and independent oracles
+    if which == Which::C01 && cfg.only_seq.is_none() {
+        let sub = crate::props::reward::run_as(cfg, "C01", if cfg.thorough() { 200 } else { 25 });
+        rep.ops += sub.ops;
+        rep.ops_ok += sub.ops_ok;
+        rep.notes.push(format!("reward sub-campaign: {} sequences, {} awards, {} validated against the Lean reward model", sub.sequences, sub.ops, sub.traces_validated));
+        for (k, v) in sub.op_hist.iter() { *rep.op_hist.entry(format!("reward:{}", k)).or_insert(0) += v; }
+        for (k, v) in sub.branch_hist.iter() { *rep.branch_hist.entry(format!("reward:{}", k)).or_insert(0) += v; }
+        for (k, v) in sub.err_hist.iter() { *rep.err_hist.entry(format!("reward:{}", k)).or_insert(0) += v; }
+        for v in sub.violations.into_iter() { rep.violations.push(v); }
+        for d in sub.disagreements.into_iter() { rep.disagreements.push(d); }
+    }
     rep
 }
